@@ -227,12 +227,13 @@ def e2e_standin(rep, prop, sampled3=0):
     """bounded stand-in through the public API (labelled bounded): generator -> performer composition, serializer, interpreter"""
     from bounded import e2e
     cases = e2e.enumerate_cases(2, sampled3, rep.seed); fails = 0; first = None; tags = {}
+    if prop == 'C01': cases = cases + e2e.special_cases()          # one constant shared by two ops in different modes: refused or loadable (structure clauses of C02/C03 are not evaluated on these)
     for c in cases:
         f = [x for x in e2e.run_case(c) if x.startswith(prop) or x.startswith('CHECKER')]
         if f: fails += 1; first = first or (c, f)
         for x in f: tags[x[:40]] = tags.get(x[:40], 0) + 1
     rep.add_bounded('Quantizer.quantize end to end (generator -> performer -> serializer -> LiteRT allocate+invoke), native ' + prop + ' clauses',
-                    'all 1-op graphs over {TANH,LOGISTIC,ABS,ADD,MUL,FC} x modes; all 2-op graphs over {TANH,ADD,ABS,FC} x wirings x output sets x modes' + (f'; {sampled3} seeded random 3-op graphs' if sampled3 else ''),
+                    'all 1-op graphs over {TANH,LOGISTIC,ABS,ADD,MUL,FC} x modes; all 2-op graphs over {TANH,ADD,ABS,FC} x wirings x output sets x modes' + ('; 27 two-op graphs sharing one constant operand x modes' if prop == 'C01' else '') + (f'; {sampled3} seeded random 3-op graphs' if sampled3 else ''),
                     len(cases), fails, note=str(tags) if tags else '')
     if first:
         ob = core.Ob(f'{prop}/bounded.e2e/{first[1][0][:40]}', None, 'bounded-native', core.REFUTED, 0.0, detail=str(first[1]), clause='native ' + prop + ' clause on the bytes returned by quantize()')
